@@ -21,8 +21,9 @@ import numpy as np
 
 from . import core
 
-MECH = dict(MSubIsDifference=True, MCopyOnTransform=True, MOrient=True, MCopyFresh=True, MDeviceUsesHoles=True)
-CLAUSES = ["TypeOK", "OnlySetOpsFail", "AreaMatchesMembership", "StoredClosedAndCCW", "AreaLaw", "PointsMapWithShapes",
+MECH = dict(MSubIsDifference=True, MCopyOnTransform=True, MOrient=True, MCopyFresh=True, MDeviceUsesHoles=True,
+            MProbeOrigin=True)
+CLAUSES = ["TypeOK", "OnlySetOpsFail", "ProbesValidatedAtConstruction", "AreaMatchesMembership", "StoredClosedAndCCW", "AreaLaw", "PointsMapWithShapes",
            "SetOpsArePointwise", "NonInplaceNeverMutates", "InplaceReturnsSelf", "CopiesDoNotAlias",
            "DeviceIsFilmMinusHoles"]
 POLY_OPS = ["setop", "rotate", "translate", "scale", "copy", "poke"]
@@ -74,6 +75,7 @@ def constants_text(b, mech=None, export=False):
          f" Shifts = {_set(pair(*x) for x in b['Shifts'])}", f" Factors = {_set(pair(*x) for x in b['Factors'])}",
          f" Origins = {_set(pair(*x) for x in b['Origins'])}", f" MaxHoles = {b['MaxHoles']}", f" Chained = {'TRUE' if b.get('Chained') else 'FALSE'}",
          f" PolyOps = {_sset(b['PolyOps'])}", f" DevOps = {_sset(b['DevOps'])}",
+         f" ProbeModes = {_sset(b.get('ProbeModes', ['none']))}",
          f" Export = {'TRUE' if export else 'FALSE'}"]
     for k, v in m.items():
         t.append(f" {k} = {'TRUE' if v else 'FALSE'}")
@@ -134,7 +136,8 @@ def chain_key(chain):
             out.append("%s%s(%s%s%s%s%s%s)%s" % (
                 o["op"], ":" + o["kind"] if o["kind"] else "", o["a"], "," + str(o["b"]) if o["b"] else "",
                 ",q%d" % o["q"] if o["q"] else "", ",p%s" % (tuple(o["par"]),) if o["op"] in ("translate", "scale", "poke", "devtranslate", "devscale") else "",
-                ",o%s" % (tuple(o["org"]),) if tuple(o["org"]) != (0, 0) else "", ",h%s" % o["hs"] if o["hs"] else "",
+                ",o%s" % (tuple(o["org"]),) if tuple(o["org"]) != (0, 0) else "",
+                (",h%s" % o["hs"] if o["hs"] else "") + (",probes %s" % o["pm"] if o.get("pm", "none") != "none" else ""),
                 "!" if o["inplace"] else ""))
     return " ; ".join(out)
 
@@ -165,20 +168,54 @@ def signed_area(pts):
     return 0.5 * float(np.sum(x[:-1] * y[1:] - x[1:] * y[:-1])) if len(pts) > 1 else 0.0
 
 
-def abstract_obj(p, H, C):
+class Frame:
+    """Where and how large the cell grid is drawn: real point = base + unit * grid point.  The model knows nothing of
+    it ("any centre", any length unit); all numbers are dyadic, so the concretisation stays exact."""
+
+    def __init__(self, name, base, unit, tol):
+        self.name, self.base, self.unit, self.tol = name, np.array(base, dtype=float), float(unit), tol
+
+    def pt(self, xy):
+        return tuple(float(v) for v in self.base + self.unit * np.asarray(xy, dtype=float))
+
+    def pts(self, arr):
+        return self.base + self.unit * np.asarray(arr, dtype=float)
+
+    def back(self, arr):
+        return (np.asarray(arr, dtype=float) - self.base) / self.unit
+
+    @property
+    def home(self):
+        return self.unit == 1.0 and not self.base.any()
+
+
+FRAMES = [Frame("origin, unit 1", (0, 0), 1.0, 1e-9),
+          Frame("centre (400000, 250000), unit 1", (400000, 250000), 1.0, 1e-6),
+          Frame("origin, unit 2^-30", (0, 0), 2.0 ** -30, 1e-9),
+          Frame("centre (-300000, 700000), unit 1/2", (-300000, 700000), 0.5, 1e-6)]
+
+
+def frame_of(variant):
+    return FRAMES[(variant // 97) % len(FRAMES)]
+
+
+def abstract_obj(p, H, C, fr=FRAMES[0]):
     pts = np.asarray(p.points)
     (minx, miny), (maxx, maxy) = p.bbox
-    return {"rows": rows_of(p.contains_points(C), H), "area": _int_or_bot(p.area),
-            "bbox": [_int_or_bot(minx), _int_or_bot(miny), _int_or_bot(maxx), _int_or_bot(maxy)],
-            "closed": bool(pts.ndim == 2 and len(pts) >= 4 and np.max(np.abs(pts[0] - pts[-1])) <= 1e-9),
-            "ccw": bool(signed_area(pts) > 0)}
+    lo, hi = fr.back((minx, miny)), fr.back((maxx, maxy))
+    t = fr.tol
+    return {"rows": rows_of(p.contains_points(fr.pts(C)), H), "area": _int_or_bot(p.area / fr.unit ** 2, t),
+            "bbox": [_int_or_bot(lo[0], t), _int_or_bot(lo[1], t), _int_or_bot(hi[0], t), _int_or_bot(hi[1], t)],
+            "closed": bool(pts.ndim == 2 and len(pts) >= 4 and np.max(np.abs(pts[0] - pts[-1])) <= 1e-9 * fr.unit),
+            "ccw": bool(signed_area(fr.back(pts)) > 0)}
 
 
 class Heap:
     """Registry of live real objects; index + 1 = object id of the specification."""
 
-    def __init__(self, tdgl, H):
+    def __init__(self, tdgl, H, fr=FRAMES[0]):
         self.tdgl = tdgl
+        self.fr = fr
         self.H = H
         self.C = centres(H)
         self.objs = []
@@ -207,27 +244,29 @@ class Heap:
     def snapshot(self):
         objs = []
         for i, p in enumerate(self.objs):
-            a = abstract_obj(p, self.H, self.C)
+            a = abstract_obj(p, self.H, self.C, self.fr)
             a["lead"] = 1 + min(j for j, q in enumerate(self.objs) if np.shares_memory(q.points, p.points))
             objs.append(a)
         devs = []
         for d in self.devs:
+            pr = [] if d.probe_points is None else [[_int_or_bot(2 * x, self.fr.tol), _int_or_bot(2 * y, self.fr.tol)]
+                                                    for x, y in self.fr.back(np.atleast_2d(d.probe_points))]
             devs.append({"film": self.obj_id(d.film), "holes": [self.obj_id(h) for h in d.holes],
-                         "inside": rows_of(d.contains_points(self.C), self.H)})
+                         "inside": rows_of(d.contains_points(self.fr.pts(self.C)), self.H), "probes": pr})
         return objs, devs
 
 
 # ------------------------------------------------------------------ concretisation (spec -> code)
 
 
-def box_points(tdgl, code, v):
+def box_points(tdgl, code, v, fr=FRAMES[0]):
     """A box of the grid as Polygon input, in one of several documented input forms."""
     from shapely import geometry as geo
     from tdgl.geometry import box as gbox
 
     x0, y0, x1, y1 = unbox(code)
-    ccw = np.array([(x0, y0), (x1, y0), (x1, y1), (x0, y1)], dtype=float)
-    w, h, c = x1 - x0, y1 - y0, ((x0 + x1) / 2, (y0 + y1) / 2)
+    ccw = fr.pts([(x0, y0), (x1, y0), (x1, y1), (x0, y1)])
+    w, h, c = (x1 - x0) * fr.unit, (y1 - y0) * fr.unit, fr.pt(((x0 + x1) / 2, (y0 + y1) / 2))
     form = v % 8
     if form == 0:
         return ccw, "corners ccw open"
@@ -258,8 +297,10 @@ def apply_op(tdgl, heap, o, v):
     Polygon = tdgl.Polygon
     op = o["op"]
     objs, devs = heap.objs, heap.devs
+    fr = heap.fr
+    u = fr.unit
     if op == "new":
-        pts, form = box_points(tdgl, o["a"], v)
+        pts, form = box_points(tdgl, o["a"], v, fr)
         return Polygon(points=pts), form
     a = o["a"]
     if op == "setop":
@@ -283,20 +324,20 @@ def apply_op(tdgl, heap, o, v):
         # 90q + 360 is left out on purpose: shapely snaps cos/sin only below 2.5e-16, cos(450 deg) = 3.1e-16, so the
         # rotated box is not exactly representable any more and is outside the exact cell model
         deg = [90 * o["q"], 90.0 * o["q"], 90 * o["q"] - 360, float(90 * o["q"] - 360)][v % 4]
-        org = tuple(o["org"]) if v % 2 else tuple(float(x) for x in o["org"])
-        if tuple(o["org"]) == (0, 0) and v % 3 == 0:
+        org = (tuple(o["org"]) if v % 2 else tuple(float(x) for x in o["org"])) if fr.home else fr.pt(o["org"])
+        if tuple(o["org"]) == (0, 0) and v % 3 == 0 and fr.home:
             return P.rotate(deg, inplace=o["inplace"]), f"rotate({deg}) default origin"
         return P.rotate(deg, origin=org, inplace=o["inplace"]), f"rotate({deg}, origin={org})"
     if op == "translate":
         P = objs[a - 1]
-        dx, dy = o["par"]
+        dx, dy = (o["par"][0], o["par"][1]) if fr.home else (o["par"][0] * u, o["par"][1] * u)
         if v % 2:
             return P.translate(dx, dy, inplace=o["inplace"]), "translate positional"
         return P.translate(dx=float(dx), dy=float(dy), inplace=o["inplace"]), "translate keywords"
     if op == "scale":
         P = objs[a - 1]
         fx, fy = o["par"]
-        org = tuple(o["org"])
+        org = tuple(o["org"]) if fr.home else fr.pt(o["org"])
         if org == (0, 0) and v % 2:
             return P.scale(xfact=fx, yfact=fy, inplace=o["inplace"]), "scale default origin"
         return P.scale(float(fx), float(fy), origin=org, inplace=o["inplace"]), f"scale origin={org}"
@@ -315,39 +356,47 @@ def apply_op(tdgl, heap, o, v):
     if op == "poke":
         P = objs[a - 1]
         arr = P.points
-        arr += np.array(o["par"], dtype=float)
+        arr += np.array(o["par"], dtype=float) * u
         return P, "points array written in place"
     if op == "mkdev":
         layer = tdgl.Layer(coherence_length=1.0, london_lambda=2.0, thickness=0.1)
+        pr = o.get("probes") or []
+        if pr:
+            pp = fr.pts(np.array(pr, dtype=float) / 2)
+            pp = pp if v % 2 else [tuple(map(float, xy)) for xy in pp]
+            return (tdgl.Device("dev", layer=layer, film=objs[a - 1], holes=[objs[h - 1] for h in o["hs"]], probe_points=pp),
+                    f"Device(film, holes, probe_points {o['pm']})")
         return tdgl.Device("dev", layer=layer, film=objs[a - 1], holes=[objs[h - 1] for h in o["hs"]]), "Device(film, holes)"
     D = devs[a - 1]
     if op == "devcopy":
         return D.copy(), "Device.copy()"
+    org = tuple(o["org"]) if fr.home else fr.pt(o["org"])
     if op == "devtranslate":
-        dx, dy = o["par"]
+        dx, dy = o["par"][0] * u, o["par"][1] * u
         return D.translate(dx, dy, inplace=o["inplace"]), "Device.translate"
     if op == "devrotate":
-        if tuple(o["org"]) == (0, 0) and v % 2:
+        if org == (0, 0) and v % 2:
             return D.rotate(90 * o["q"]), "Device.rotate default origin"
-        return D.rotate(90 * o["q"], origin=tuple(o["org"])), f"Device.rotate origin={tuple(o['org'])}"
+        return D.rotate(90 * o["q"], origin=org), f"Device.rotate origin={org}"
     if op == "devscale":
         fx, fy = o["par"]
-        if tuple(o["org"]) == (0, 0) and v % 2:
+        if org == (0, 0) and v % 2:
             return D.scale(xfact=fx, yfact=fy), "Device.scale default origin"
-        return D.scale(xfact=fx, yfact=fy, origin=tuple(o["org"])), f"Device.scale origin={tuple(o['org'])}"
+        return D.scale(xfact=fx, yfact=fy, origin=org), f"Device.scale origin={org}"
     raise ValueError(op)
 
 
 def event_of(o):
     return {"op": o["op"], "kind": o["kind"], "a": 0 if o["op"] == "new" else o["a"], "box": o["a"] if o["op"] == "new" else 0,
             "b": o["b"], "q": o["q"], "parc": pair(*o["par"]), "orgc": pair(*o["org"]), "hs": list(o["hs"]),
-            "inplace": bool(o["inplace"])}
+            "pm": o.get("pm", "none"), "probes": [list(p) for p in o.get("probes", [])], "inplace": bool(o["inplace"])}
 
 
 def replay_chain(tdgl, chain, H, variant):
     """Run one exported chain on real objects; returns the trace and a python-side diff against
     the exported expectation (diagnostics only; TLC decides)."""
-    heap = Heap(tdgl, H)
+    fr = frame_of(variant)
+    heap = Heap(tdgl, H, fr)
     ev, forms, diffs = [], [], []
     for n, st in enumerate(chain):
         o = st["o"]
@@ -377,6 +426,7 @@ def replay_chain(tdgl, chain, H, variant):
                 diffs.append({"step": n + 1, "form": form, "expected": {"out": want[0], "res": want[1], "objs": want[2], "devs": want[3]},
                               "observed": {"out": got[0], "res": got[1], "objs": got[2], "devs": got[3]}})
     return {"kind": "chain", "H": H, "ev": ev, "key": chain_key(chain), "variant": variant, "forms": forms, "pydiff": diffs[:1],
+            "frame": fr.name,
             "ops": [st["o"] for st in chain]}
 
 
@@ -396,7 +446,7 @@ def replay_chains_to_file(tdgl, args, tmp):
     for ops, v in zip(args["chains"], args["variants"]):
         t = replay_chain(tdgl, [{"o": o} for o in ops], args["H"], v)
         traces.append(strip_trace(t))
-        meta.append({"key": t["key"], "forms": t["forms"], "n": len(t["ev"]),
+        meta.append({"key": t["key"], "forms": t["forms"], "n": len(t["ev"]), "frame": t["frame"],
                      "ops": [[e["op"], e["kind"], e["inplace"], e["out"]] for e in t["ev"]]})
     with open(args["out"], "w") as f:
         json.dump(traces, f)
@@ -407,7 +457,7 @@ def strip_trace(t):
     """What TLC needs of a chain trace (smaller JSON)."""
     if t["kind"] != "chain":
         return {"kind": t["kind"], "ev": t["ev"]}
-    keep = ("op", "kind", "a", "box", "b", "q", "parc", "orgc", "hs", "inplace", "out", "res", "objs", "devs")
+    keep = ("op", "kind", "a", "box", "b", "q", "parc", "orgc", "hs", "pm", "probes", "inplace", "out", "res", "objs", "devs")
     return {"kind": "chain", "ev": [{k: e[k] for k in keep} for e in t["ev"]]}
 
 
